@@ -59,8 +59,13 @@ where
             return None;
         }
 
-        // Get answer from the thread number `self.now`.
-        let result = self.communication[self.now].receive.recv().unwrap_or_default();
+        // Get answer from the thread number `self.now`. A thread which finished sends an explicit
+        // `None`. When the channel is closed without it the thread has panicked and we must not
+        // silently end the iteration.
+        let result = match self.communication[self.now].receive.recv() {
+            Ok(result) => result,
+            Err(_) => panic!("A parallel_map worker thread terminated unexpectedly (panicked)."),
+        };
 
         // Some(task) means more work for the thread, None means the thread should finish.
         let _ = self.communication[self.now].send.send(self.iter.next());
@@ -132,6 +137,8 @@ where
                     Err(_) => return,
                 }
             }
+            // Explicit end of results (not sent when `fun` panics).
+            let _ = thread.send.send(None);
         });
         handles.push(handle);
 
